@@ -46,6 +46,8 @@ struct Oracle {
 	sub_ops: Vec<usize>,
 	gate_open: bool,
 	ever_shut: bool,
+	/// subscribe_to_method calls not acknowledged yet (the send task is blocked): (op, method)
+	pending_regs: Vec<(usize, String)>,
 }
 
 fn canon(s: &str) -> String {
@@ -177,6 +179,9 @@ fn run_one(out: &mut Out, lines: &[String], fam: &mut BTreeMap<u64, Vec<(usize, 
 		let w: Vec<&str> = line.split(' ').collect();
 		let mut verdict: Result<(), String> = Ok(());
 		let mut nontrivial = false;
+		// names held by method streams before this line takes effect (queued messages are processed in order when
+		// the gate opens, so a registration queued before an unsubscribe is still refused legitimately)
+		let names_before: Vec<String> = orc.streams.values().filter(|s| s.routing).filter_map(|s| s.method.clone()).collect();
 		if w[0] == "cl" && obs.literal.is_none() && !dead {
 			match w[1] {
 				"call" | "batch" => orc.n_ops += 1,
@@ -191,10 +196,22 @@ fn run_one(out: &mut Out, lines: &[String], fam: &mut BTreeMap<u64, Vec<(usize, 
 					// registration is acknowledged in the same op when the send task is not blocked
 					if obs.comps.iter().any(|(k, c)| *k == op && *c == Comp::Reg) {
 						orc.streams.insert(op, new_stream(None, Some(m), !orc.gate_open));
+					} else if !obs.comps.iter().any(|(k, _)| *k == op) {
+						// (also when the caller abandons it later: the entry may exist with nobody listening,
+						// so the name counts as taken for the rest of the case)
+						orc.pending_regs.push((op, m));
 					}
 				}
 				"gate" => {
 					orc.gate_open = w[2] == "open";
+					if orc.gate_open {
+						// explicit unsubscribe() of a method stream waits for the queue and goes through now
+						for s in orc.streams.values_mut() {
+							if s.method.is_some() && s.consumer == Ended::Unsubscribed {
+								s.routing = false;
+							}
+						}
+					}
 					if !orc.gate_open {
 						orc.ever_shut = true;
 						for s in orc.streams.values_mut() {
@@ -227,6 +244,34 @@ fn run_one(out: &mut Out, lines: &[String], fam: &mut BTreeMap<u64, Vec<(usize, 
 					dead = true;
 				}
 			}
+			// a refused registration: some earlier handler of that name must still be (possibly) registered
+			for (op, comp) in &obs.comps {
+				if *comp != Comp::E("already".into()) {
+					continue;
+				}
+				let mut k = 0usize;
+				let mut name: Option<String> = None;
+				for l in lines.iter().skip(1) {
+					let ww: Vec<&str> = l.split(' ').collect();
+					if matches!(ww.get(1), Some(&"call") | Some(&"batch") | Some(&"subscribe") | Some(&"regnotif")) {
+						if k == *op && ww[1] == "regnotif" {
+							name = String::from_utf8(unhex(ww[2])).ok();
+						}
+						k += 1;
+					}
+				}
+				let Some(m) = name else { continue };
+				let taken = names_before.contains(&m)
+					|| orc.streams.values().any(|s| s.method.as_deref() == Some(m.as_str()) && s.routing)
+					|| orc.pending_regs.iter().any(|(k, n)| k != op && *n == m);
+				out.count(if taken { "reg.refused.taken" } else { "reg.refused.free" });
+				if !taken && verdict.is_ok() {
+					verdict = Err(format!(
+						"subscribe_to_method({m:?}) refused although every earlier stream for that method has ended: the new stream can never get its notifications"
+					));
+				}
+			}
+			orc.pending_regs.retain(|(k, _)| !obs.comps.iter().any(|(c, x)| c == k && *x != Comp::Reg));
 			// late registration acknowledgements (gate was shut)
 			for (op, comp) in &obs.comps {
 				if *comp == Comp::Reg && !orc.streams.contains_key(op) {
@@ -259,7 +304,17 @@ fn run_one(out: &mut Out, lines: &[String], fam: &mut BTreeMap<u64, Vec<(usize, 
 								}
 								verdict = orc.check_prefix(op);
 							}
-							NextRes::Pending => out.count("next.pending"),
+							NextRes::Pending => {
+								out.count("next.pending");
+								// everything sent for a stream that never was full is in its buffer
+								if !s.lag_seen && s.yielded.len() < s.sent.len() {
+									verdict = Err(format!(
+										"stream {op} has nothing to yield although {} of its notifications arrived and only {} were yielded (never full)",
+										s.sent.len(),
+										s.yielded.len()
+									));
+								}
+							}
 							NextRes::End { lagged } => {
 								nontrivial = true;
 								out.count(if *lagged { "next.end.lagged" } else { "next.end.closed" });
@@ -279,6 +334,10 @@ fn run_one(out: &mut Out, lines: &[String], fam: &mut BTreeMap<u64, Vec<(usize, 
 					if let Some(s) = orc.streams.get_mut(&op) {
 						s.consumer = Ended::Dropped;
 						out.count("stream.drop");
+						// a method stream tells the back end at once when the request queue has room
+						if s.method.is_some() && orc.gate_open {
+							s.routing = false;
+						}
 					}
 				}
 				("unsub", _) => {
@@ -287,6 +346,9 @@ fn run_one(out: &mut Out, lines: &[String], fam: &mut BTreeMap<u64, Vec<(usize, 
 						s.consumer = Ended::Unsubscribed;
 						s.occupancy = 0;
 						out.count("stream.unsub");
+						if s.method.is_some() && orc.gate_open {
+							s.routing = false;
+						}
 					}
 				}
 				_ => {}
@@ -553,6 +615,65 @@ fn gen_random_case(rng: &mut Rng, caseno: u64) -> Vec<String> {
 	lines
 }
 
+/// A method stream ends (dropped with the request queue full / with room / explicit unsubscribe), one more
+/// notification for the method arrives, and a new stream for the same method must get exactly what follows.
+fn gen_replacement_case(rng: &mut Rng, caseno: u64) -> Vec<String> {
+	let str_ids = rng.chance(1, 3);
+	let cap = rng.range(1, 4);
+	let fcap = rng.range(1, 2);
+	let mut lines = vec![format!("case {caseno} client {} {cap} {fcap}", if str_ids { "str" } else { "num" })];
+	let m = format!("m{}", rng.below(2));
+	let mut v = 0u64;
+	let mut note = |lines: &mut Vec<String>| {
+		v += 1;
+		lines.push(format!("cl deliver {}", hexs(&mnotif(&m, Some(v)))));
+	};
+	let mut op = 0usize;
+	let rounds = rng.range(1, 3);
+	for _ in 0..rounds {
+		lines.push(format!("cl regnotif {}", hexs(&m)));
+		let a = op;
+		op += 1;
+		for _ in 0..rng.below(3) {
+			note(&mut lines);
+			if rng.chance(1, 2) {
+				lines.push(format!("cl next {a}"));
+			}
+		}
+		let how = rng.below(4);
+		if how <= 1 {
+			// the back end cannot be told: send task blocked, queue full (how == 1: queue has room)
+			lines.push("cl gate shut".into());
+			let ncalls = if how == 0 { fcap + 1 } else { 1 };
+			for _ in 0..ncalls {
+				lines.push("cl call".into());
+				op += 1;
+			}
+			lines.push(format!("cl drop {a}"));
+			if rng.chance(1, 3) {
+				note(&mut lines);
+			}
+			lines.push("cl gate open".into());
+		} else {
+			lines.push(format!("cl {} {a}", if how == 2 { "drop" } else { "unsub" }));
+		}
+		note(&mut lines);
+		// successor
+		lines.push(format!("cl regnotif {}", hexs(&m)));
+		let b = op;
+		op += 1;
+		let k = rng.range(1, cap);
+		for _ in 0..k {
+			note(&mut lines);
+		}
+		for _ in 0..k + 1 {
+			lines.push(format!("cl next {b}"));
+		}
+		lines.push(format!("cl {} {b}", if rng.chance(1, 2) { "drop" } else { "unsub" }));
+	}
+	lines
+}
+
 /// all compositions of `n` (ordered ways to write n as a sum of positive parts)
 fn compositions(n: usize) -> Vec<Vec<usize>> {
 	if n == 0 {
@@ -636,6 +757,9 @@ fn main() {
 		}
 		for i in 0..n {
 			lines.extend(gen_random_case(&mut rng, i + 1));
+		}
+		for i in 0..n / 6 {
+			lines.extend(gen_replacement_case(&mut rng, 1_500_000 + i));
 		}
 	}
 	let mut fam = BTreeMap::new();
